@@ -21,6 +21,7 @@ KNOWN = {  # key in KNOWN_FINDINGS.jsonl -> (probe file prefix, classes of the s
     "distribution-parameter-hang": ("known-distparam-", ["hang@distribution-parameter"]),
     "derivative-cancellation-extreme-magnitude": ("known-cancel-", ["deriv-mismatch@extreme-magnitude", "hes-mismatch@extreme-magnitude"]),
     "gsl-laguerre-3-special-case": ("known-gsl-laguerre3-", ["deriv-mismatch@gsl-laguerre3", "hes-mismatch@gsl-laguerre3"]),
+    "gsl-overflow-first-call-differs": ("known-gsl-firstcall-", ["nondeterministic@overflowing-argument"]),
 }
 
 
